@@ -195,7 +195,8 @@ def outcome_value(o, val, hooks=None):
 
 def _sig(x):
     if x[0] == 'raise':
-        return 'raise %s' % x[1]
+        return 'raise %s' % (' or '.join(x[1]) if isinstance(
+            x[1], (tuple, list, set, frozenset)) else x[1],)
     v = x[1]
     if isinstance(v, Obj):
         return 'return <%s>' % v.label
